@@ -668,14 +668,56 @@ pub fn analyse_master(case: &SmastCase, run: &MastRun) -> (Option<Violation>, bo
     let mut running = 0i32;
     let mut nontrivial = false;
     let mut fp = 0u64;
+    // never stalls: whatever the peer sends, a task ends no later than one response timeout after its last own progress
+    // (a request written, a response fragment accepted)
+    let mut progress: BTreeMap<u16, u64> = BTreeMap::new();
+    let timeout_of = |a: u16| case.cfg.assocs.iter().find(|x| x.address == a).map(|x| x.response_timeout_ms).unwrap_or(1000);
     for (_, h) in &hist {
         match h {
-            H::TaskStart { func, .. } => {
+            H::TaskStart { func, assoc, t, .. } => {
                 running += 1;
                 fp = mix(&[fp, *func as u64]);
+                progress.insert(*assoc, *t);
             }
-            H::TaskSuccess { .. } | H::TaskFail { .. } => running = (running - 1).max(0),
-            H::Client { .. } => running = 0,
+            H::Request { dest, t, .. } => {
+                if let Some(p) = progress.get_mut(dest) {
+                    *p = (*p).max(t.saturating_sub(case.latency.0));
+                }
+            }
+            H::End { assoc, t, .. } => {
+                if let Some(p) = progress.get_mut(assoc) {
+                    *p = (*p).max(*t);
+                }
+            }
+            H::File { t, .. } => {
+                // a file block handed to the reader is progress of the transfer task (single association scripts)
+                for p in progress.values_mut() {
+                    *p = (*p).max(*t);
+                }
+            }
+            H::TaskSuccess { assoc, t, .. } | H::TaskFail { assoc, t, .. } => {
+                running = (running - 1).max(0);
+                if let Some(p) = progress.remove(assoc) {
+                    let limit = p + timeout_of(*assoc) + 2;
+                    if *t > limit && violation.is_none() {
+                        violation = Some(Violation::new(
+                            "C01/master-task-stalled",
+                            "",
+                            format!(
+                                "a task of association {} made its last progress at {} ms (response timeout {} ms) but only ended at {} ms while the peer kept sending",
+                                assoc,
+                                p,
+                                timeout_of(*assoc),
+                                t
+                            ),
+                        ));
+                    }
+                }
+            }
+            H::Client { .. } => {
+                running = 0;
+                progress.clear();
+            }
             H::MasterRx { bytes, .. } => {
                 let hostile = refapp::decode_fragment(bytes).is_err() || bytes.len() < 4 || !matches!(bytes[1], 129 | 130);
                 if hostile {
@@ -690,7 +732,7 @@ pub fn analyse_master(case: &SmastCase, run: &MastRun) -> (Option<Violation>, bo
             _ => {}
         }
     }
-    if let Some(id) = probe {
+    if let (Some(id), true) = (probe, violation.is_none()) {
         *counters.entry("probe.serving_probe_evaluated".to_string()).or_insert(0) += 1;
         let done = hist.iter().find_map(|(_, h)| match h {
             H::UserDone { id: x, ok, outcome, t } if *x == id => Some((*ok, outcome.clone(), *t)),
